@@ -157,7 +157,7 @@ theorem entry_step {cfg : Config} {s : St} {last : Last} {acc : List Acc} {l : L
     exact ⟨[], by simpa using hp, fun pid tid t km pe ip chain e => absurd e (hne _ _ _ _ _ _ _), fun _ => rfl⟩
   cases r with
   | fork pid tid ppid ptid t =>
-    obtain ⟨o1, o2, _, _⟩ := obs_fork hinv hr pid tid ppid ptid t
+    obtain ⟨o1, o2, _, _⟩ := obs_fork hinv pid tid ppid ptid t
     refine none_case (psi_same hn hn' (fun a => ?_) o2) (fun _ _ _ _ _ _ _ e => by cases e)
     rw [o1 a]
     split
@@ -166,7 +166,7 @@ theorem entry_step {cfg : Config} {s : St} {last : Last} {acc : List Acc} {l : L
       · rfl
     · rfl
   | exit pid tid t =>
-    obtain ⟨o1, o2, _, _⟩ := obs_exit hinv hr pid tid t
+    obtain ⟨o1, o2, _, _⟩ := obs_exit hinv pid tid t
     refine none_case ?_ (fun _ _ _ _ _ _ _ e => by cases e)
     by_cases hpt : pid = tid
     · simp only [if_pos hpt] at o1 o2
@@ -177,7 +177,7 @@ theorem entry_step {cfg : Config} {s : St} {last : Last} {acc : List Acc} {l : L
       · next e => rw [e]; rfl
       · rfl
   | comm pid tid name isExec t =>
-    obtain ⟨o1, o2, _, _⟩ := obs_comm hinv hr pid tid name isExec t
+    obtain ⟨o1, o2, _, _⟩ := obs_comm hinv pid tid name isExec t
     refine none_case ?_ (fun _ _ _ _ _ _ _ e => by cases e)
     cases isExec with
     | true =>
